@@ -258,11 +258,6 @@ func (m *Msg) Pack(b []byte, compression bool, size int) (int, error) {
 	}
 
 	var h header
-	h.id, h.bits = m.Header.Pack()
-	h.questions = uint16(len(m.Questions))
-	h.answers = uint16(len(m.Answers))
-	h.authorities = uint16(len(m.Authorities))
-	h.additionals = uint16(len(m.Additionals))
 
 	if size > 0 && size < 512 {
 		size = 512
@@ -287,6 +282,9 @@ func (m *Msg) Pack(b []byte, compression bool, size int) (int, error) {
 		compressionMap = newCompressionMap()
 		defer releaseCompressionMap(compressionMap)
 	}
+	// Numbers of entries that were packed. They are less than the section
+	// lengths if entries were dropped because of the size limit.
+	var questions, answers, authorities, additionals int
 	for _, q := range m.Questions {
 		if size > 0 && off+q.Len() > size {
 			msgHdr.Truncated = true
@@ -296,6 +294,7 @@ func (m *Msg) Pack(b []byte, compression bool, size int) (int, error) {
 		if off, err = q.pack(b, off, compressionMap); err != nil {
 			return off, newSectionErr("question", err)
 		}
+		questions++
 	}
 
 	for _, r := range m.Answers {
@@ -307,6 +306,7 @@ func (m *Msg) Pack(b []byte, compression bool, size int) (int, error) {
 		if off, err = r.pack(b, off, compressionMap); err != nil {
 			return off, newSectionErr("answer", err)
 		}
+		answers++
 	}
 	for _, r := range m.Authorities {
 		if size > 0 && off+r.packLen() > size {
@@ -317,6 +317,7 @@ func (m *Msg) Pack(b []byte, compression bool, size int) (int, error) {
 		if off, err = r.pack(b, off, compressionMap); err != nil {
 			return off, newSectionErr("authority", err)
 		}
+		authorities++
 	}
 	for _, r := range m.Additionals {
 		if size > 0 && off+r.packLen() > size {
@@ -327,6 +328,7 @@ func (m *Msg) Pack(b []byte, compression bool, size int) (int, error) {
 		if off, err = r.pack(b, off, compressionMap); err != nil {
 			return off, newSectionErr("additional", err)
 		}
+		additionals++
 	}
 
 	if edns0Opt != nil {
@@ -335,8 +337,16 @@ func (m *Msg) Pack(b []byte, compression bool, size int) (int, error) {
 		if off, err = edns0Opt.pack(b, off, compressionMap); err != nil {
 			return off, newSectionErr("additional", err)
 		}
+		additionals++
 	}
 
+	// The header is built from msgHdr, which has the TC bit set if entries
+	// were dropped, and from the numbers of entries that are in the message.
+	h.id, h.bits = msgHdr.Pack()
+	h.questions = uint16(questions)
+	h.answers = uint16(answers)
+	h.authorities = uint16(authorities)
+	h.additionals = uint16(additionals)
 	h.pack(b[:12])
 	return off, nil
 }
